@@ -90,10 +90,19 @@ def ip4(v):
     return SStr([Atom('ip4', to_term(v))])
 
 
+def ip6_text(n):
+    """str(netaddr.IPAddress(n, 6)): RFC 5952 compression, and netaddr's embedded-IPv4 dotted form for IPv4-compatible
+    (0xffff < n <= 0xffffffff) and IPv4-mapped (n >> 32 == 0xffff) addresses (netaddr.strategy.ipv6.int_to_str)"""
+    import ipaddress
+    if 0xffff < n <= 0xffffffff or (n >> 32) == 0xffff:
+        v4 = '%d.%d.%d.%d' % ((n >> 24) & 255, (n >> 16) & 255, (n >> 8) & 255, n & 255)
+        return ('::ffff:' if (n >> 32) == 0xffff else '::') + v4
+    return str(ipaddress.IPv6Address(n))
+
+
 def ip6(v):
     if isinstance(v, int):
-        import ipaddress
-        return str(ipaddress.IPv6Address(v))
+        return ip6_text(v)
     return SStr([Atom('ip6', to_term(v))])
 
 
